@@ -45,6 +45,10 @@ type RegInfo struct {
 	Life     godi.Lifetime
 	NumOuts  int
 	Disposes []bool // per output: instance type has Close() error
+	LiveOut  []bool // per output: still registered (not taken out by a Remove step)
+	IsRemove bool   // the step is a Remove / RemoveKeyed call
+	identOut  []int  // per identity: output index
+	identGone []bool // per identity: removed by a later Remove step
 }
 
 // Class is the expected Build verdict class.
@@ -77,6 +81,7 @@ type Model struct {
 	HasMultiAlias  bool // a registration with >= 2 As aliases (open finding D6)
 	HasMultiOutOpt bool // multi-return with Name/Group (open finding D8)
 	HasOutGroup    bool // Out struct with a group field (open finding D9)
+	HasRemoves     bool // the spec contains Remove steps
 }
 
 // NewModel computes the reference model.
@@ -85,6 +90,36 @@ func NewModel(s *Spec) *Model {
 	for i, r := range s.Regs {
 		ri := &m.Regs[i]
 		ri.Life = r.Life
+		if r.Remove {
+			ri.IsRemove = true
+			ri.Reject = "(remove-step)"
+			m.HasRemoves = true
+			if p, ok := m.Services[IdentKey{r.RmType, r.RmKey}]; ok {
+				delete(m.Services, IdentKey{r.RmType, r.RmKey})
+				tr := &m.Regs[p.Reg]
+				for k, ik := range tr.Idents {
+					if ik == (IdentKey{r.RmType, r.RmKey}) {
+						tr.Idents[k] = IdentKey{}
+						tr.identGone[k] = true
+					}
+				}
+				// an output is live while at least one of its identities is registered
+				for oi := range tr.LiveOut {
+					tr.LiveOut[oi] = false
+				}
+				anyLive := false
+				for k := range tr.Idents {
+					if !tr.identGone[k] {
+						tr.LiveOut[tr.identOut[k]] = true
+						anyLive = true
+					}
+				}
+				if !anyLive {
+					tr.Reject = "(removed)"
+				}
+			}
+			continue
+		}
 		var outs []pool.Out
 		if r.Ctor >= 0 {
 			ri.Meta = &pool.Ctors[r.Ctor]
@@ -96,6 +131,7 @@ func NewModel(s *Spec) *Model {
 		ri.NumOuts = len(outs)
 		for _, o := range outs {
 			ri.Disposes = append(ri.Disposes, pool.Types[o.Impl].Disposable)
+			ri.LiveOut = append(ri.LiveOut, true)
 		}
 		if r.Name != "" && r.Group != "" {
 			ri.Reject = "name+group"
@@ -171,6 +207,8 @@ func NewModel(s *Spec) *Model {
 			continue
 		}
 		for _, id := range ids {
+			ri.identOut = append(ri.identOut, id.out)
+			ri.identGone = append(ri.identGone, false)
 			if id.ik.Type != "" {
 				m.Services[id.ik] = Provided{i, id.out}
 				ri.Idents = append(ri.Idents, id.ik)
@@ -333,7 +371,7 @@ func (m *Model) Lookup(t, key string) (Provided, bool) {
 // use a constructor twice).
 func (m *Model) RegOfCtor(ctor int) int {
 	for i, r := range m.Spec.Regs {
-		if r.Ctor == ctor {
+		if !r.Remove && r.Ctor == ctor {
 			return i
 		}
 	}
